@@ -206,7 +206,7 @@ def check_case(ctx, case):
         check_alignment_case(ctx, case)
 
 
-FAMS = ["longoverlap", "longoverlap", "nested", "nested", "grid", "touching", "identical", "dyadic", "generic", "tiny"]
+FAMS = ["longoverlap", "longoverlap", "nested", "nested", "grid", "touching", "identical", "dyadic", "generic", "tiny", "mixeddur", "mixeddur"]
 
 
 def run(ctx):
@@ -236,6 +236,10 @@ def run(ctx):
         mx = {2: 8, 3: 6, 4: 5, 5: 4}[n]
         cspec = cases.gen_continuum(rng, n_annot=n, max_units=mx if rng.random() < 0.6 else rng.randint(1, mx),
                                     labels=labels or cases.LABELS_SMALL, min_total=2, family=rng.choice(FAMS))
+        if n >= 3 and rng.random() < 0.3:      # an annotator without units: the window quota still counts it
+            victim = rng.choice(sorted(cspec["ann"].keys()))
+            if sum(len(us) for a, us in cspec["ann"].items() if a != victim) >= 2:
+                cspec["ann"][victim] = []
         nunits = cases.spec_num_units(cspec)
         wmax = -(-nunits // n) + 1
         windows = list(range(1, wmax + 1))
